@@ -22,6 +22,10 @@ class ExtractError(Exception):
     pass
 
 
+class FatalExtract(Exception):
+    """not confined to one item: a file the translator reads is missing or cannot be lexed"""
+
+
 class NotConst(Exception):
     pass
 
